@@ -689,12 +689,30 @@ def concat(objs, axis=0):
     raise ModelUnsupported("concat")
 
 
+def from_real(obj):
+    """real pandas object -> model (used for pass-through reads of bundled data files)"""
+    import pandas as pd
+    if isinstance(obj, pd.DataFrame):
+        return DataFrame._from_cols(list(obj.columns), [obj[c].tolist() for c in obj.columns], obj.index.tolist())
+    if isinstance(obj, pd.Series):
+        return Series(obj.tolist(), obj.index.tolist(), obj.name)
+    return obj
+
+
+def read_csv(path, *a, **kw):
+    """Pass-through: the real reader runs with tracing suspended on fully concrete arguments (bundled CSV files)."""
+    from crosshair.tracers import NoTracing
+    with NoTracing():
+        import pandas as pd
+        return from_real(pd.read_csv(path, *a, **kw))
+
+
 def make_proxy(real_pandas, log):
     from vlib.rebind import ModuleProxy
     from models import sp_model
     over = {"DataFrame": DataFrame, "Series": Series, "isna": isna, "isnull": isna, "Index": Index,
             "MultiIndex": MultiIndex, "concat": concat,
-            "merge": sp_model.term_ctor("merge")}
+            "merge": sp_model.term_ctor("merge"), "read_csv": read_csv}
     return ModuleProxy(real_pandas, over, log)
 
 
